@@ -733,6 +733,18 @@ pub fn run_case<F: Family>(it: &mut Interp<F>, name: &str, seed: u64, cfg: &GenC
             it.bump(if nph < nst { "sched:add-ons" } else { "sched:no-add-ons" });
             continue;
         }
+        if cfg.profile.contains("par") && g.rng.below(100) < 35 {
+            let qs = F::par_queries();
+            let q = &qs[g.rng.below(qs.len() as u64) as usize];
+            let has_mut = q.0.split(',').any(|v| v.starts_with('m') || v.starts_with("om"));
+            let threads = [1u64, 2, 3, 8, 16][g.rng.below(5) as usize];
+            let e = if has_mut && g.rng.below(2) == 0 { g.epoch().to_string() } else { "-".to_string() };
+            *it.op_hist.entry("parq").or_insert(0) += 1;
+            let r = it.exec(w, &Op::Raw("parq".into(), vec![q.0.to_string(), q.1.to_string(), threads.to_string(), g.rng.below(3).to_string(), e]));
+            let nrows = r.split_whitespace().find_map(|t| t.strip_prefix("n=")).and_then(|v| v.parse::<u64>().ok()).unwrap_or(0);
+            it.bump(if nrows == 0 { "parq:empty" } else if nrows < 3 { "parq:1-2" } else { "parq:3+" });
+            continue;
+        }
         let res_on = cfg.profile.contains("res") && nres > 0;
         let op = if res_on && g.rng.below(100) < 25 {
             if g.rng.below(3) == 0 {
@@ -787,7 +799,7 @@ pub fn run_case<F: Family>(it: &mut Interp<F>, name: &str, seed: u64, cfg: &GenC
                     5 => fl / 2,
                     _ => g.rng.below(6) as usize,
                 }
-                .min(9)
+                .min(9) + if cfg.profile.contains("par") && g.rng.below(3) == 0 { 7 + g.rng.below(30) as usize } else { 0 }
             };
             let key = if n == 0 { "extend:n=0" } else if n < fl { "extend:n<free" } else if n == fl { "extend:n=free" } else { "extend:n>free" };
             it.bump(key);
